@@ -215,7 +215,7 @@ pub fn gen(rng: &mut Rng, tier: &str) -> Vec<Line> {
     }
   }
   // random multi-field combinations
-  for _ in 0..(if thorough { 50_000 } else { 1_500 }) {
+  for _ in 0..(if thorough { 50_000 } else { 700 }) {
     let (mut f, mut e, mut c) = (empty(), empty(), empty());
     let density = 1 + rng.below(4);
     for i in 0..27 {
@@ -252,7 +252,7 @@ pub fn gen(rng: &mut Rng, tier: &str) -> Vec<Line> {
   }
   // config file location
   for bits in 0..64u8 {
-    for _ in 0..(if thorough { 40 } else { 4 }) {
+    for _ in 0..(if thorough { 40 } else { 2 }) {
       let mut l = L::new().p(1u8);
       let ids = [1u8, 2, 3, 4, 5, 6];
       for (k, id) in ids.iter().enumerate() {
